@@ -44,6 +44,8 @@ Load(lines) == [i \in 1..Len(lines) |-> LoadLine(lines[i])]
 PrintMeta(s) == [i \in 1..Len(s) |-> [pre |-> "META", k |-> s[i][1], v |-> s[i][2]]]
 Reload(s) == Load(PrintMeta(s))
 
+\* Load on <<key, value>> pairs whose values are not strings (projected values): only the keys are mapped
+LoadKeys(ps) == [i \in 1..Len(ps) |-> <<Legacy(ps[i][1]), ps[i][2]>>]
 KeysOf(s) == {s[i][1] : i \in 1..Len(s)}
 \* the entries of s whose key is not k, in order (what Set(s, k, v) must leave alone)
 Others(s, k) == SelectSeq(s, LAMBDA e : e[1] # k)
